@@ -17,7 +17,7 @@ func registerMore(add func(PropDef)) {
 		Rule: "texts rendered from item descriptions with varied literal forms (decimal/hex/octal/leading-0 octal/binary with sign and letter case, floats as e/f/g/exact 40-digit forms, strings split into quoted runs and character codes): parsed values must equal the described values (built independently through the factories); one unrepresentable literal (out of range, wrong syntax, wrong type, non-ASCII) in each of three positions for all item types: at least one error and no message; results also compared with the Lean model (decisive on messages and error kinds)"})
 	add(PropDef{ID: "C06", Suites: func() []Suite { return suiteC06(nil) },
 		Rule: "hostile inputs parsed in an isolated worker process (6 GiB address-space limit, 20 s watchdog): token soups over the SML vocabulary with exotic white space / invalid UTF-8 / huge numbers and sizes, byte-level mutations of valid texts, random bytes, deep nesting and the known hostile sizes; outcome must be a normal return with errors => no messages and every diagnostic position inside the input; results compared with the Lean model"})
-	add(PropDef{ID: "C08", Level: "other", Suites: func() []Suite { return suiteC08(nil) },
+	add(PropDef{ID: "C08", Level: "proof", Suites: func() []Suite { return suiteC08(nil) },
 		Rule: "token sequences (valid messages, mutated invalid ones, several messages) rendered under a plain and a random layout (blank kinds and amounts, CRLF, comments with arbitrary bytes incl. UTF-8 tails 0x85/0xA0, \\v, \\f, keyword/prefix case): messages equal and diagnostics equal after mapping positions to the tokens they point at; comments with random bytes appended to any line of printed messages; both renderings compared with the Lean model"})
 	add(PropDef{ID: "C15", Suites: func() []Suite { return suiteC15(nil) },
 		Rule: "all four declaration forms x 14 item types x (lower, upper, count) in [0,4]^3 (thorough [0,6]^3, quick a random third): accepted iff within bounds, error at the declaration otherwise; huge and overflowing bounds against big-integer arithmetic; ASCII variables in all four forms: bounds printed back, fills of every length 0..max+1 accepted iff inside; compared with the Lean model"})
